@@ -282,6 +282,57 @@ def judge_case(c, where, dumped, a, real, m_judge, extra):
       c.prop_fail('unknown-parameter-wrong-error:' + real[1], '%s raised %s, not ValueError' % (where, real[1]), case)
 
 
+def foreign_spec_stage(c):
+  """Study specs NOT written by this library (a hand-written / other-language StudySpec message): the declared
+  external type is read off the wire enum (AS_INTEGER, AS_FLOAT, AS_BOOLEAN), so a table that is wrong in BOTH
+  directions - invisible to anything that converts its own output back - shows here."""
+  from vizier._src.service import study_pb2
+  from vizier.service import pyvizier as svz
+  PS = study_pb2.StudySpec.ParameterSpec
+  n = 40 if c.tier == 'quick' else 400
+  for i in range(n):
+    spec = study_pb2.StudySpec(algorithm='RANDOM_SEARCH')
+    spec.metrics.add(metric_id='obj', goal=study_pb2.StudySpec.MetricSpec.GoalType.MAXIMIZE)
+    want, params = {}, []
+    for j in range(c.rng.randrange(1, 5)):
+      name = 'q%d' % j
+      kind = c.rng.choice(['int', 'float', 'bool', 'plain'])
+      if kind in ('int', 'float', 'plain'):
+        vals = sorted(c.rng.sample([1.0, 2.0, 4.0, 8.0, 16.0, 32.0], c.rng.randrange(1, 4)))
+        ps = spec.parameters.add(parameter_id=name)
+        ps.discrete_value_spec.values.extend(vals)
+        ps.external_type = {'int': PS.ExternalType.AS_INTEGER, 'float': PS.ExternalType.AS_FLOAT, 'plain': PS.ExternalType.AS_INTERNAL}[kind]
+        v = c.rng.choice(vals)
+        want[name] = int(v) if kind == 'int' else float(v)
+        params.append((name, v))
+      else:
+        ps = spec.parameters.add(parameter_id=name)
+        ps.categorical_value_spec.values.extend(['False', 'True'])
+        ps.external_type = PS.ExternalType.AS_BOOLEAN
+        b = c.rng.choice(['False', 'True'])
+        want[name] = (b == 'True')
+        params.append((name, b))
+    t = study_pb2.Trial(id='1')
+    for name, v in params:
+      p_ = t.parameters.add(parameter_id=name)
+      if isinstance(v, str):
+        p_.value.string_value = v
+      else:
+        p_.value.number_value = v
+    real = _try(lambda: svz.StudyConfig.from_proto(spec).trial_parameters(t))
+    c.traces += 1
+    c.count(1, ('foreign-spec', i), kind='foreign-spec')
+    case = {'parameters': [[ps.parameter_id, PS.ExternalType.Name(ps.external_type)] for ps in spec.parameters], 'trial': params}
+    if real[0] != 'ok':
+      c.prop_fail('foreign-spec-valid-trial-refused', 'trial_parameters raised %s for a valid trial of a hand-written StudySpec' % real[1], case)
+      continue
+    got = {k: (type(v).__name__, v) for k, v in real[1].items()}
+    exp = {k: (type(v).__name__, v) for k, v in want.items()}
+    if got != exp:
+      c.prop_fail('foreign-spec-declared-type', 'a hand-written StudySpec declaring %s presents the trial %s as %s, expected %s' % (
+          case['parameters'], params, sorted(got.items()), sorted(exp.items())), dict(case, presented=sorted(map(str, got.items()))))
+
+
 def study_config_of(ss):
   from vizier import pyvizier as vz
   from vizier.service import pyvizier as svz
@@ -567,6 +618,7 @@ def run(c):
   autocast_stage(c)
   parse_stage(c)
   presentation_stage(c)
+  foreign_spec_stage(c)
   client_stage(c)
   return c.finish(
       level='proof',
